@@ -32,6 +32,16 @@ SCHEMES = [
     (["r", "q", "r", "q", "r", "q", "r"], None),
 ]
 
+
+def scheme_lists(case, n):
+    """rule names and ids of the scheme chosen by a hash of the network, for n reactions (the base lists are continued for long networks)"""
+    rules, ids = SCHEMES[zlib.crc32(case.encode()) % 3]
+    if rules:
+        rules = [rules[k % len(rules)] for k in range(n)]
+    if ids:
+        ids = [ids[k] if k < len(ids) else f"{ids[k % len(ids)]}{k}" for k in range(n)]
+    return rules, ids
+
 TEXTBOOK = [
     "A>>B; B>>A",
     "A>>B; B>>C; C>>A",
@@ -94,9 +104,7 @@ def check(case):
     from synkit.CRN.Petri import semiflows
 
     net = ec.parse_net(case)
-    scheme = SCHEMES[zlib.crc32(case.encode()) % 3]
-    rules = scheme[0][: len(net)] if scheme[0] else None
-    ids = scheme[1][: len(net)] if scheme[1] else None
+    rules, ids = scheme_lists(case, len(net))
     H = ec.build_hypergraph(net, rules=rules, ids=ids)
     return judge(H, net, rules)
 
